@@ -291,3 +291,127 @@ theorem C06_fn_summaries_are_the_model (hEff cEff hCur cCur : Info) (h : Hash) :
       simp [a1, a2, a3, a4, b1, b2, b3, b4]
 
 end VlsModel.Props.C06Fn
+
+/-! ### The loop body of `NodeState::validate_payments`, composed from the generated pieces
+
+`validate_payments` itself is outside the translator's subset; `genCheckHash` transcribes its per-hash loop body by hand
+using nothing but generated definitions, and `C06_fn_checkHash` shows that the model's `checkHash` is exactly that
+composition (order: cltv gate on the stored bounds, `updated_incoming_outgoing`, the two `* 1000`, the balance check,
+the TODO(331) tolerance), for every hash, entry and invoice. -/
+namespace VlsModel.Props.C06Fn
+open VlsModel VlsModel.Payments VlsModel.Payments.Fn
+open VlsModel.Gen.FnNodePay
+open VlsModel.Gen.FnSimplePay (SimpleValidator)
+
+/-- The body of the preflight loop of `NodeState::validate_payments` for one hash, transcribed by hand (the function
+    itself is outside the translator's subset: `dyn Validator`, an unordered set, `?` inside the loop) but built ONLY from
+    the generated definitions: `get_cltv_bounds`, `validate_payment_cltv`, `updated_incoming_outgoing`, the two checked
+    `* 1000`, `validate_payment_balance`.  `true` = balanced or tolerated (TODO(331)), `false` = pushed to `unbalanced`. -/
+def genCheckHash (v : SimpleValidator) (inv : Option Nat) (pay : Option RP) (c ni no : Nat) : Rs.M Bool := do
+  let io ← (match pay with
+    | some p => do
+        let _ ← (match p.get_cltv_bounds with
+          | some (ic, oc) => v.validate_payment_cltv errAll ic oc
+          | none => pure ())
+        p.updated_incoming_outgoing c ni no
+    | none => pure (ni, no))
+  let i1000 ← Rs.umul Rs.U64_MAX io.1 1000
+  let o1000 ← Rs.umul Rs.U64_MAX io.2 1000
+  match v.validate_payment_balance errAll i1000 o1000 inv with
+  | .ok () => pure true
+  | .error (.err _) => pure (pay.isSome && inv.isNone)
+  | .error f => .error f
+
+def relC : Rs.M Bool → VRes
+  | .ok true => .ok
+  | .ok false => .err
+  | .error (.err _) => .err
+  | .error _ => .panic
+
+theorem umul_ok {m a b : Nat} (h : a * b ≤ m) : Rs.umul m a b = .ok (a * b) := by simp [Rs.umul, h]
+theorem umul_ov {m a b : Nat} (h : ¬ a * b ≤ m) : Rs.umul m a b = .error .overflow := by
+  simp [Rs.umul, h, Rs.overflow]
+
+/-- the part of the loop body after the totals are known -/
+theorem checkHash_tail (pol : Policy) (i o : Nat) (inv : Option Nat) (b : Bool) :
+    relC (do
+      let i1000 ← Rs.umul Rs.U64_MAX i 1000
+      let o1000 ← Rs.umul Rs.U64_MAX o 1000
+      match (toV pol).validate_payment_balance errAll i1000 o1000 inv with
+      | .ok () => pure true
+      | .error (.err _) => pure b
+      | .error f => .error f)
+    = (if i * 1000 > U64.MAX ∨ o * 1000 > U64.MAX then VRes.panic else
+        match balance pol (i * 1000) (o * 1000) inv with
+        | .ok => .ok
+        | .panic => .panic
+        | .err => if b then .ok else .err) := by
+  have e : Rs.U64_MAX = U64.MAX := rfl
+  by_cases h1 : i * 1000 ≤ Rs.U64_MAX
+  · by_cases h2 : o * 1000 ≤ Rs.U64_MAX
+    · have g : ¬ (i * 1000 > U64.MAX ∨ o * 1000 > U64.MAX) := by rw [e] at h1 h2; omega
+      rw [umul_ok h1, Rs.bind_ok, umul_ok h2, Rs.bind_ok]
+      simp only [g, if_false]
+      have hb := C06_fn_validate_payment_balance pol (i * 1000) (o * 1000) inv h1
+      cases hr : (toV pol).validate_payment_balance errAll (i * 1000) (o * 1000) inv with
+      | ok u =>
+        rw [hr] at hb
+        simp only [relV] at hb
+        rw [← hb]
+        rfl
+      | error f =>
+        rw [hr] at hb
+        cases f with
+        | err t =>
+          simp only [relV] at hb
+          rw [← hb]
+          cases b <;> rfl
+        | panic => simp only [relV] at hb; rw [← hb]; rfl
+        | overflow => simp only [relV] at hb; rw [← hb]; rfl
+    · have g : (i * 1000 > U64.MAX ∨ o * 1000 > U64.MAX) := by rw [e] at h2; omega
+      rw [umul_ok h1, Rs.bind_ok, umul_ov h2, Rs.bind_err]
+      simp [g, relC]
+  · have g : (i * 1000 > U64.MAX ∨ o * 1000 > U64.MAX) := by rw [e] at h1; omega
+    rw [umul_ov h1, Rs.bind_err]
+    simp [g, relC]
+
+theorem C06_fn_checkHash (invoices : Hash → Option Invoice) (payments : Hash → Option Payment) (pol : Policy)
+    (nch c ni no : Nat) (h : Hash) (pay : Option RP)
+    (hp : payments h = pay.map abs) (hw : ∀ p, pay = some p → WF nch p) :
+    relC (genCheckHash (toV pol) ((invoices h).map (·.amount)) pay c ni no)
+      = checkHash invoices payments pol nch c ni no h := by
+  unfold genCheckHash checkHash
+  cases pay with
+  | none =>
+    simp only [Option.map_none] at hp
+    simp only [hp, Rs.pure_eq, Rs.bind_ok, Bool.not_true, Bool.false_eq_true, if_false, Option.isSome_none,
+      Bool.false_and]
+    exact checkHash_tail pol ni no _ false
+  | some p =>
+    simp only [Option.map_some] at hp
+    have hwp := hw p rfl
+    simp only [hp, C06_fn_get_cltv_bounds pol p]
+    cases hb : p.get_cltv_bounds with
+    | none =>
+      simp only [Rs.pure_eq, Rs.bind_ok, Bool.not_true, Bool.false_eq_true, if_false,
+        C06_fn_updated_incoming_outgoing nch p hwp c ni no]
+      cases hu : (abs p).updated nch c ni no with
+      | none => simp [Rs.bind_err, relC]
+      | some io =>
+        simp only [Rs.bind_ok, Option.isSome_some, Bool.true_and, Option.isNone_map]
+        exact checkHash_tail pol io.1 io.2 _ _
+    | some ab =>
+      obtain ⟨a, b⟩ := ab
+      simp only [C06_fn_validate_payment_cltv]
+      by_cases hc : cltvOk pol a b = true
+      · simp only [hc, if_true, Rs.bind_ok, Bool.not_true, Bool.false_eq_true, if_false,
+          C06_fn_updated_incoming_outgoing nch p hwp c ni no]
+        cases hu : (abs p).updated nch c ni no with
+        | none => simp [Rs.bind_err, relC]
+        | some io =>
+          simp only [Rs.bind_ok, Option.isSome_some, Bool.true_and, Option.isNone_map]
+          exact checkHash_tail pol io.1 io.2 _ _
+      · have hc' : cltvOk pol a b = false := by simpa using hc
+        simp [hc', Rs.bind_err, relC]
+
+end VlsModel.Props.C06Fn
